@@ -135,7 +135,9 @@ Definition conv_result (f : Z) (st : state) (v : obj) : res obj := conv_arg f st
 Definition evaluate (f : Z) (args : list expr) (st : state) : R obj :=
   match lookup f (fns st) with
   | None => errR st 18
-  | Some (ps, body) =>
+  | Some (ps0, body) =>
+      (* the sigils of the parameters are completed at evaluation time, with the default types of that moment *)
+      let ps := map (resolve st) ps0 in
       let mark := length (tvals st) in
       finallyR
         (doR (st1, _) <- eval_args ps args st;
@@ -199,7 +201,8 @@ with unit_ (fuel : nat) (e : expr) (st : state) {struct fuel} : R obj :=
           else retR st (OStr (zlen bs, a))
       | ELit None bs => doR (st1, p) <- store c st bs; retR st1 (OStr p)
       | ENum t z => retR st (ONum t z)
-      | EVar n =>
+      | EVar n0 =>
+          let n := resolve st n0 in
           if is_strname n then retR st (if mem_key n (scal st) then OVar n else OStr (0, 0))
           else retR st (ONum (nty n) (match lookup n (scal st) with Some (SNum z) => z | _ => 0 end))
       | EArr n i => doR (st1, _) <- check_dim c st n i; retR st1 (OArr n i)
@@ -541,6 +544,7 @@ Definition exec (fuel : nat) (direct : bool) (s : stmt) (st : state) : R unit :=
           else if totmem st1 <? n then errR st1 7
           else retR (clear_all (set_totmem st1 n)) tt
       end
+  | SDeftype t lo hi => retR (set_deft st ((lo, (hi, t)) :: deft st)) tt
   | SInput vars typed =>
       finallyR
         (doR (st1, _) <- input_read vars typed (push_frame st);
@@ -555,7 +559,7 @@ Definition exec (fuel : nat) (direct : bool) (s : stmt) (st : state) : R unit :=
         (fix go (ps : list Z) (s : state) : R unit :=
            match ps with
            | [] => retR s tt
-           | p :: r => doR (s1, _) <- set_scalar c s p None; go r s1
+           | p :: r => doR (s1, _) <- set_scalar c s (resolve s p) None; go r s1
            end) ps st2
   end.
 
